@@ -271,6 +271,12 @@ func (c *Container) dispatch(httpWriter http.ResponseWriter, httpRequest *http.R
 		return
 	}
 
+	// ServeHTTP installed a CompressingResponseWriter before the Route was known ; the setting of the Route overrides that of the Container
+	if compressWriter, ok := httpWriter.(*CompressingResponseWriter); ok && compressWriter.installedByContainer &&
+		route != nil && route.contentEncodingEnabled != nil && !*route.contentEncodingEnabled {
+		writer = compressWriter.detach()
+	}
+
 	// Unless httpWriter is already an CompressingResponseWriter see if we need to install one
 	if _, isCompressing := httpWriter.(*CompressingResponseWriter); !isCompressing {
 		// Detect if compression is needed
@@ -367,6 +373,9 @@ func (c *Container) ServeHTTP(httpWriter http.ResponseWriter, httpRequest *http.
 		}
 	}
 
+	if compressWriter, ok := writer.(*CompressingResponseWriter); ok {
+		compressWriter.installedByContainer = true
+	}
 	serveMux.ServeHTTP(writer, httpRequest)
 }
 
